@@ -74,6 +74,24 @@ CLAIMED = {
         L1_NOTE,
         "DESIGN.md §3 C19",
     ),
+    "C12": (
+        "exhaustive enumeration of supported-locale sets x request lists over a closed identifier universe through the real Locale::find_locale / find_matchs, relational oracle",
+        "Every subset of size 1..4 of 12 identifiers (language/script/region/variant combinations and `und`) with each member as default, against every request list of length 0..3 over the universe plus unsupported, mis-cased and unparsable entries (1.2e7 calls): the answer must be supported, match the first request anything supports (exactly or as a less specific form), prefer an exact match for that request, fall back to the default, ignore unparsable entries.",
+        "Seam RT: the repo's negotiation code linked natively; the Locale trait is implemented by a harness type whose get_all() is chosen per configuration (the generated enum's side is C13's). BCP-47 parsing is icu_locid's.",
+        "DESIGN.md §3 C12",
+    ),
+    "C15": (
+        "exhaustive enumeration of environments (cookie header x cookie options x Accept-Language x parent x initial locale) on natively created contexts with injected header getters",
+        "All ~2.8e4 environments build real contexts (init_i18n_context_with_options, init_i18n_subcontext_with_options, resolve_locale_with_options) under the ssr feature with effects run to quiescence on a harness-owned executor; the initial locale must follow cookie > Accept-Language > default, and for sub-contexts cookie > initial > parent > same resolution; invalid cookie values are ignored.",
+        "Seam RT (ssr). Client-only branches (navigator.languages, <html lang>) need a browser and are not executed. Accept-Language entries are fed without spaces (splitting is leptos-use's).",
+        "DESIGN.md §3 C15",
+    ),
+    "C16": (
+        "stateless exhaustive exploration of operation histories (depth <= 4/5) over a tree of contexts, replayed on the real reactive runtime under a harness-owned deterministic executor",
+        "Every history of set_locale / set_locale_untracked / set-through-scoped-view / sub-context creation (none, constant, wired initial locale) / wired-signal writes / accessor creation / poll up to the depth bound is replayed from scratch on a fresh Owner; after every step every context, a fresh scoped view and every accessor created earlier (t!, t_string!, tu_string!, t_display!, scoped) is read and compared with a context -> last-locale map; replay determinism is self-checked.",
+        "Seam RT (ssr, reactive_graph/effects). All tasks, including those leptos hands to the thread pool, run on the calling thread's queue when the harness polls. Wired-signal window: either value admitted until the next poll.",
+        "DESIGN.md §3 C16",
+    ),
 }
 
 NOT_YET = "check not built yet in this round (design in DESIGN.md §3); no claim is made"
